@@ -5,6 +5,7 @@ All statements quantify over every input text `s` and every lexer `nested` for i
 expressions (hence in particular the real recursive one, `tokenize`).
 -/
 import MambaVerif.Lemmas.LexDoc
+import MambaVerif.Lemmas.LexSpan
 
 namespace MV.C18
 
@@ -75,6 +76,37 @@ theorem eof_single (s : List Char) (toks : List Lex) (h : tokenize s = .ok toks)
     (`if a⏎    b⏎  c`), so the hypotheses of the theorems above are met by non-trivial inputs. -/
 def okWith (r : LexRes (List Lex)) (p : List Lex → Bool) : Bool :=
   match r with | .ok t => p t | _ => false
+
+/-- **spans_exact**: for every text the main loop of the lexer accepts (and every lexer `nested` for
+    interpolated expressions), (i) the caret ends at the start caret advanced over the whole text, and
+    (ii) every token that carries source text — every token except the synthesised `NL`, `Indent`,
+    `Dedent` — is EXACTLY a slice of the text: the text splits as `pre ++ mid ++ post` with the token's
+    `Display` text equal to `mid`, its start equal to the start caret advanced over `pre`, and its end equal
+    to the start caret advanced over `pre ++ mid` (`CaretPos::advance_over`: a line feed starts a new
+    line, every other character one column).  Identifiers, keywords, operators, numbers (also E-notation),
+    strings (multi-line, non-ASCII, with interpolations), and comments are all covered; CRLF counts as one
+    line break. -/
+theorem spans_exact (nested : List Char → LexRes (List Lex)) (s : List Char) (toks : List Lex) (st : LState)
+    (h : run nested s 0 LState.init = .ok (toks, st)) :
+    st.pos = CaretPos.start.advanceOver s ∧ ∀ l ∈ toks, Lexical l → SpanOf CaretPos.start s l := by
+  have := run_spans nested s 0 LState.init (Nat.zero_le _) h (fun l hl => by simp [LState.init] at hl)
+  simpa [LState.init, CaretPos.start] using this
+
+/-- the dedents flushed at the end of input carry no text (they are not `Lexical`) -/
+theorem flush_not_lexical (st : LState) : ∀ l ∈ st.flushIndents, ¬ Lexical l := by
+  intro l hl hlex
+  unfold LState.flushIndents at hl
+  rw [List.mem_replicate] at hl
+  exact hlex.2.2.1 (by rw [hl.2]; rfl)
+
+/-- non-vacuity: a text with a multi-line, non-ASCII, interpolated string and a comment is accepted by the
+    main loop (so `spans_exact` applies to it), and a `Str` token is lexical -/
+example : okWith (match run (tokenizeDirect 20)
+      ['x', ' ', ':', '=', ' ', '"', 'é', '\n', '{', 'y', '}', '"', ' ', '#', ' ', 'c', '\r', '\n', 'z'] 0 LState.init with
+    | .ok (toks, _) => .ok toks | .err p => .err p | .panic n => .panic n)
+    (fun toks => toks.any (fun l => l.kind == .Str)) = true := by decide
+example : Lexical (Lex.new CaretPos.start ⟨.Str, ['"', '"']⟩) := by
+  simp [Lexical, Lex.kind, Lex.new, Lex.tok]
 
 theorem okWith_spec {r : LexRes (List Lex)} {p : List Lex → Bool} (h : okWith r p = true) :
     ∃ toks, r = .ok toks ∧ p toks = true := by
